@@ -135,6 +135,17 @@ def build(ex):
             ex2.interp.fact_concat(new, [h.seq, others])
             h.seq = new
             ex2.ghost['reg_at_acquire'] = new
+            n = ex2.ghost.get('acquisitions', 0)
+            ex2.ghost['acquisitions'] = n + 1
+            ac = ex2.abs_classes['AWorker']
+            if n == 0:
+                # the linearisation point of active_children(): the registry and the liveness of its members as of the first critical section
+                ex2.ghost['reg_at_snapshot'] = new
+                ex2.ghost['alive_at_snapshot'] = ac.arr(ex2, 'alive')
+            else:
+                # rely, second part: between two critical sections another thread may have RESTARTED a registered worker that was dead (alive again;
+                # register_child finds it registered and appends nothing), and a live one may have died: liveness observed before is stale
+                ex2.absfields[('AWorker', 'alive')] = ex2.fresh('AWorker.alive', z3.ArraySort(Val, smt.Bool))
         ex_.ghost['__on_acquire__'] = on_acquire
 
         def hook(interp, key, mode):
@@ -261,14 +272,43 @@ def build(ex):
             return w.key
         return Val.vakey(w.t)
 
+    def l1_registry(c):
+        from pyvc.interp_data import cnt_f
+        ex_ = c.ex
+        e0 = c.env['e0'].t
+        k = Val.vakey(e0)
+        alive_now = z3.Select(ex_.abs_classes['AWorker'].arr(ex_, 'alive'), k)
+        alive_then = z3.Select(ex_.ghost['alive_at_snapshot'], k) if 'alive_at_snapshot' in ex_.ghost else alive_now
+        ref = ex_.class_attrs[(W, '_active_children')]
+        now = ex_.heap[ref.addr].seq if isinstance(ex_.heap[ref.addr], HSymList) else ex_.interp.as_seq(ref)
+        acq = ex_.ghost['reg_at_acquire']
+        return z3.And(z3.Implies(alive_now, cnt_f(e0, now) == cnt_f(e0, acq)),
+                      z3.Implies(z3.And(z3.Not(alive_now), z3.Not(alive_then)), cnt_f(e0, now) == 0))
+    l1_registry.__doc__ = ('a registered worker (e0 arbitrary) that is alive when the registry is last written is still registered, as often as before - a live worker is '
+                           'never dropped, also not one that was dead when looked at and has been restarted since; a worker that is dead throughout is dropped '
+                           '(with one critical section: cnt(e0, registry) == (cnt(e0, registry at acquisition) if alive(e0) else 0))')
+
+    def l1_result(c):
+        from pyvc.interp_data import cnt_f
+        ex_ = c.ex
+        e0 = c.env['e0'].t
+        k = Val.vakey(e0)
+        if 'reg_at_snapshot' not in ex_.ghost:
+            return z3.BoolVal(False)        # the registry was never read under the lock
+        alive_then = z3.Select(ex_.ghost['alive_at_snapshot'], k)
+        snap = ex_.ghost['reg_at_snapshot']
+        r = c.env['result']
+        y = ex_.heap[r.addr].seq if isinstance(ex_.heap[r.addr], HSymList) else ex_.interp.as_seq(r)
+        return z3.And(cnt_f(e0, y) == z3.If(alive_then, cnt_f(e0, snap), 0), z3.Length(y) <= z3.Length(snap))
+    l1_result.__doc__ = ('what is yielded is exactly the registered workers that were alive at the snapshot (first critical section), each as often as it is registered, '
+                         'and no dead one: cnt(e0, result) == (cnt(e0, registry at the snapshot) if alive(e0) else 0); len(result) <= len(registry)')
+
     # ---------------------------------------------------------------- L1
     L1 = Contract(
         W + '.active_children', lid='L1',
         name='C19.L1 active_children yields exactly the live registered workers and drops the dead ones from the registry',
         setup=lambda ex_, env: registry_setup(ex_, env),
-        ensures=['cnt(e0, Worker._active_children) == (cnt(e0, reg_at_acquire) if alive(e0) else 0)',
-                 'cnt(e0, result) == (cnt(e0, reg_at_acquire) if alive(e0) else 0)',
-                 'len(result) <= len(reg_at_acquire)'],
+        ensures=[l1_registry, l1_result],
         all_exits=['not lock.held'],
         raises={}, raises_only=[])
 
